@@ -69,7 +69,7 @@ Apply(s, t) ==
   /\ ApplyLoopRuns(s)
   /\ IF applied[s] < Len(log)
      THEN t = log[applied[s] + 1] /\ UNCHANGED log
-     ELSE (Len(log) = 0 \/ t >= log[Len(log)]) /\ log' = Append(log, t)
+     ELSE (IF Len(log) = 0 THEN TRUE ELSE t >= log[Len(log)]) /\ log' = Append(log, t)
   /\ applied' = [applied EXCEPT ![s] = @ + 1]
   /\ IF SharedFilesSafe
      THEN UNCHANGED ckpts
